@@ -615,9 +615,10 @@ OBJ_EXC_BUILTIN = {"TypeError", "ValueError", "KeyError", "IndexError", "Attribu
 class Sibling:
     """another translated function of the same output file"""
 
-    def __init__(self, py_name, lean_name, kind, n_args, is_property=False, fn=None, recv="self"):
+    def __init__(self, py_name, lean_name, kind, n_args, is_property=False, fn=None, recv="self", state=None):
         self.py_name, self.lean_name, self.kind, self.n_args, self.is_property = py_name, lean_name, kind, n_args, is_property
         self.fn, self.recv = fn, recv
+        self.state = state       # for kind "mut": the parameter that is threaded when it is not the receiver
 
     def positional(self, tr, call: "ast.Call") -> list:
         """the call's arguments as the positional list of the callee's signature (keywords placed, defaults filled in)"""
@@ -657,7 +658,7 @@ class ObjTranslator:
     def __init__(self, fn, *, src_file, lean_name, kind, siblings, externals=(), ignored_calls=(), params=None,
                  has_self=True, stop_before=None, result_locals=None, doc="", method_externals=(), consts=None,
                  state=None, state_siblings=None, enter_ok=True, operators=None, constructors=None, owner_cls=None,
-                 module_tables=None):
+                 module_tables=None, module_calls=None):
         self.fn, self.src_file, self.lean_name, self.kind = fn, src_file, lean_name, kind
         self.siblings: dict[str, Sibling] = siblings
         self.externals, self.ignored_calls = set(externals), set(ignored_calls)
@@ -674,6 +675,7 @@ class ObjTranslator:
         self.constructors: dict[str, Sibling] = dict(constructors or {})     # class name -> its `<Cls>_new`
         self.owner_cls = owner_cls
         self.module_tables: dict = dict(module_tables or {})
+        self.module_calls: dict = dict(module_calls or {})     # "inspect.isclass" -> name the world knows it by
         self.has_self = has_self
         self.params = params
         self.stop_before = stop_before          # predicate on a statement: translation ends before it
@@ -901,6 +903,8 @@ class ObjTranslator:
                 return f"dictGet {self.atom(f.value)} {self.atom(a[0])}", False
             if f.attr == "items" and not a:
                 return f"dictItems {self.atom(f.value)}", False
+            if ast.unparse(f) in self.module_calls:
+                return f"W.ext {json.dumps(self.module_calls[ast.unparse(f)])} {self.args_list(a)}", False
             if f.attr == "format" and isinstance(f.value, ast.Constant) and isinstance(f.value.value, str):
                 return f"strFormat {self.atom(f.value)} {self.args_list(a)}", False
             if f.attr in self.method_externals and not self.is_self(f.value):
@@ -954,7 +958,11 @@ class ObjTranslator:
             if n == "callable" and len(a) == 1:
                 return f"(← callable {self.atom(a[0])})"
             if n == "isinstance" and len(a) == 2:
-                return f"(← isinstance {self.atom(a[0])} {self.cls_list(a[1])})"
+                try:
+                    return f"(← isinstance {self.atom(a[0])} {self.cls_list(a[1])})"
+                except Untranslatable:
+                    # the class is a computed value (`isinstance(_cls, metaclass)`): the world answers for that value
+                    return f"(← truthy (← W.ext \"isinstance\" [{self.atom(a[0])}, {self.atom(a[1])}]))"
             if n == "bool" and len(a) == 1:
                 return f"(← truthy {self.atom(a[0])})"
             if n == "issubclass" and len(a) == 2:
@@ -1036,9 +1044,51 @@ class ObjTranslator:
             return f"(← getattr {self.recv_l} {json.dumps(attr)})", (lambda code, ind: self.set_self_attr(attr, f"(← {code})", ind))
         self.fail(v, "in-place update of something that is neither a local nor an attribute of self")
 
+    def mut_sibling_call(self, e):
+        """`self.sib(…, context, …)` where `sib` is translated with effects on the same threaded parameter"""
+        if isinstance(e, ast.Call) and isinstance(e.func, ast.Attribute) and self.is_self(e.func.value) \
+                and e.func.attr in self.siblings:
+            sb = self.siblings[e.func.attr]
+            if sb.kind == "mut" and sb.state and sb.state == self.state and self.kind == "mut" and self.state != self.recv:
+                return sb
+        return None
+
+    def hoist(self, e, ind: str):
+        """evaluate a call of a sibling with effects before the statement that uses its result:
+        returns (lines, replacement expression)"""
+        sb = self.mut_sibling_call(e)
+        args = sb.positional(self, e)
+        names = [x.arg for x in sb.fn.args.args if x.arg != sb.recv]
+        pos = names.index(sb.state)
+        if not (isinstance(args[pos], ast.Name) and args[pos].id == self.state):
+            self.fail(e, "the threaded object is not handed on as it is")
+        r, v = f"r_{e.lineno}", f"ret_{e.lineno}"
+        lines = [f"{ind}let {r} ← {sb.lean_name} W {self.recv_l} {' '.join(self.atom(x) for x in args)}",
+                 f"{ind}{self.state_l} := {r}.1",
+                 f"{ind}if let Outcome.raise exc_{e.lineno} := {r}.2 then",
+                 f"{ind}  return ({self.state_l}, Outcome.raise exc_{e.lineno})",
+                 f"{ind}let {lname(v)} := (match {r}.2 with | Outcome.ret x => x | Outcome.raise x => x)"]
+        self.declared.add(v)
+        return lines, ast.copy_location(ast.Name(id=v, ctx=ast.Load()), e)
+
     def stmt(self, s, ind: str) -> list[str]:
         if isinstance(s, ast.Expr) and isinstance(s.value, ast.Constant) and isinstance(s.value.value, str):
             return []
+        if isinstance(s, ast.For):
+            # `for … in enumerate(cls._read_items(value, context))`: the call with effects runs first
+            it = s.iter
+            inner = it.args[0] if (isinstance(it, ast.Call) and isinstance(it.func, ast.Name) and it.func.id == "enumerate"
+                                   and len(it.args) == 1 and not it.keywords) else it
+            if self.mut_sibling_call(inner) is not None:
+                lines, repl = self.hoist(inner, ind)
+                new_iter = repl if inner is it else ast.copy_location(
+                    ast.Call(func=it.func, args=[repl], keywords=[]), it)
+                s2 = ast.copy_location(ast.For(target=s.target, iter=new_iter, body=s.body, orelse=s.orelse), s)
+                return lines + self.stmt(s2, ind)
+        if isinstance(s, ast.Return) and s.value is not None and self.mut_sibling_call(s.value) is not None:
+            # `return self._invalid_value(error, raw, context, …)`: the sibling's outcome is this function's
+            lines, repl = self.hoist(s.value, ind)
+            return lines + [self.ret(self.atom(repl), ind)]
         if isinstance(s, ast.Return):
             if s.value is None:
                 return [self.ret("OVal.none", ind)]
@@ -1229,15 +1279,28 @@ class ObjTranslator:
             # a call whose result is dropped (`item_context.transformer(item, t)`): evaluated for what it raises
             code, pure = self.call(c)
             return [f"{ind}let _ ← {code}"] if not pure else [f"{ind}pure ()"]
+        if isinstance(s, ast.Assert):
+            # `assert cond, msg`: AssertionError when the condition is false (the message is not modelled)
+            code = "(OVal.obj \"AssertionError\" [])"
+            tail = f"return ({self.state_l}, Outcome.raise {code})" if self.kind == "mut" else f"throw (Exc.raised {code})"
+            return [f"{ind}if (!{self.cond(s.test)}) then", f"{ind}  {tail}"]
+        if isinstance(s, ast.FunctionDef):
+            # a nested function: a closure object that carries the variables of this scope it mentions
+            free = sorted({n.id for n in ast.walk(s) if isinstance(n, ast.Name) and n.id in self.declared
+                           and n.id not in {a.arg for a in s.args.args}} - {self.recv, s.name})
+            items = ", ".join(f"({json.dumps(v)}, {lname(v)})" for v in free)
+            return [self.assign(s.name, (f"(OVal.obj {json.dumps('closure:' + s.name)} [{items}])", True), ind)]
         if isinstance(s, ast.ImportFrom) and all(a.asname is None and a.name in OBJ_CLASS_NAMES for a in s.names):
             return []      # a class name used in isinstance / issubclass only
         self.fail(s)
 
     def translate(self) -> str:
         a = self.fn.args
-        if a.vararg or a.kwarg or a.posonlyargs:
+        if a.kwarg or a.posonlyargs:
             self.fail(self.fn, "signature")
         names = [x.arg for x in a.args if not (self.has_self and x.arg == self.recv)]
+        if a.vararg:
+            names.append(a.vararg.arg)       # `*classes`: the tuple of the positional arguments
         kwonly = [x.arg for x in a.kwonlyargs]
         extra = list(self.params or [])
         ret_t = "M V (OVal V × Outcome V)" if self.kind == "mut" else "M V (OVal V)"
@@ -1296,6 +1359,8 @@ def assigned_names_obj(body) -> set[str]:
             elif isinstance(n, ast.Expr) and isinstance(n.value, ast.Call) and isinstance(n.value.func, ast.Attribute) \
                     and n.value.func.attr in ("append", "extend", "clear", "sort", "update") and isinstance(n.value.func.value, ast.Name):
                 out.add(n.value.func.value.id)
+            elif isinstance(n, ast.FunctionDef):
+                out.add(n.name)
     return out
 
 
@@ -1378,13 +1443,14 @@ def gen_group(repo: Path, notes: list, *, src_file: str, cls_name: str | None, f
                                state=spec.get("state"), state_siblings=spec.get("state_siblings"),
                                enter_ok=spec.get("enter_ok", True), operators=spec.get("operators"),
                                constructors=spec.get("constructors"), owner_cls=spec.get("cls", cls_name),
-                               module_tables=spec.get("module_tables"))
+                               module_tables=spec.get("module_tables"), module_calls=spec.get("module_calls"))
             out.append(tr.translate() + "\n")
         except Untranslatable as e:
             notes.append(f"untranslatable {e} ({cls_name or ns}.{py})")
             out.append(stub(lean, kind, n_args + n_extra + (1 if has_self else 0), py, kw=bool(fn.args.kwonlyargs)))
         siblings[py] = Sibling(py, lean, kind if has_self else "fn", n_args, is_property(fn), fn=fn,
-                               recv=(fn.args.args[0].arg if has_self and fn.args.args else "self"))
+                               recv=(fn.args.args[0].arg if has_self and fn.args.args else "self"),
+                               state=spec.get("state"))
     out += [f"end Utv.Gen.{ns}", ""]
     return "\n".join(out)
 
@@ -1477,8 +1543,12 @@ def _group_body(text: str) -> list[str]:
 def _find_nested(outer: str, inner: str):
     def find(_tree, cls):
         o = find_method(cls, outer)
-        return next((n for n in (o.body if o else []) if isinstance(n, ast.FunctionDef) and n.name == inner), None)
+        return next((n for n in (ast.walk(o) if o else []) if isinstance(n, ast.FunctionDef) and n.name == inner and n is not o), None)
     return find
+
+
+def _is_def(name: str):
+    return lambda st: isinstance(st, ast.FunctionDef) and st.name == name
 
 
 def gen_registry(repo: Path, notes: list, gate_ok: bool) -> str:
@@ -1492,6 +1562,12 @@ def gen_registry(repo: Path, notes: list, gate_ok: bool) -> str:
              "params": ["detector", "priority"], "has_self": True, "arity": 4,
              "doc": " (inner function of `register`; closure variables `detector`, `priority` are parameters)"},
             {"py": "resolve", "kind": "mut", "arity": 2, "method_externals": {"resolve"}},
+            {"py": "detector", "lean": "register_detector", "find": _find_nested("register", "detector"), "has_self": False,
+             "params": ["classes", "allow_subclasses", "metaclass", "attr"], "arity": 5,
+             "doc": " (closure built by `register`; its closure variables are parameters)"},
+            {"py": "register", "lean": "register_outer", "stop_before": _is_def("decorator"), "arity": 3, "kw": True,
+             "result_locals": ["detector", "priority"], "module_calls": {"inspect.isclass": "isclass"},
+             "doc": " up to (not including) `def decorator`: the argument checks; result: what the decorator captures"},
         ], gate_ok=gate_ok)
 
 
@@ -1573,6 +1649,21 @@ def gen_json_tables(repo: Path, notes: list) -> str:
     except (Untranslatable, OSError, SyntaxError) as e:
         notes.append(f"untranslatable {e} (DEFAULT_PRIMITIVE)")
         out.append('def DEFAULT_PRIMITIVE : String := ""   -- untranslatable')
+    # parser.py: class attribute TYPE_KEYWORDS of JsonSchemaParser (type name -> the keywords that reveal it)
+    try:
+        pt = ast.parse((repo / "utype/specs/json_schema/parser.py").read_text())
+        v = find_assign(pt, "TYPE_KEYWORDS", "JsonSchemaParser")
+        if not isinstance(v, ast.Dict) or any(k is None for k in v.keys):
+            raise Untranslatable("utype/specs/json_schema/parser.py JsonSchemaParser.TYPE_KEYWORDS")
+        rows = []
+        for k, val in zip(v.keys, v.values):
+            if not (isinstance(k, ast.Constant) and isinstance(k.value, str)):
+                raise Untranslatable("utype/specs/json_schema/parser.py TYPE_KEYWORDS key")
+            rows.append(f"({json.dumps(k.value)}, {lean_str_list(strs(val))})")
+        out.append("def PARSER_TYPE_KEYWORDS : List (String × List String) := [" + ", ".join(rows) + "]")
+    except (Untranslatable, OSError, SyntaxError) as e:
+        notes.append(f"untranslatable {e} (TYPE_KEYWORDS)")
+        out.append("def PARSER_TYPE_KEYWORDS : List (String × List String) := []   -- untranslatable")
     out += ["", "end Utv.Gen.JsonTables", ""]
     return "\n".join(out)
 
@@ -1671,7 +1762,8 @@ def gen_parse(repo: Path, notes: list, gate_ok: bool) -> str:
                           "_validate_contains)", "Parse", imports=["Utv.Gen.Field", "Utv.Gen.Options"])
     body = []
     part = gen_group(repo, notes, src_file="utype/parser/field.py", cls_name="ParserField", ns="Parse", title="",
-                     funcs=[dict(py="parse_value", arity=4, **common)], base_siblings=field_sibs,
+                     funcs=[dict(py="_invalid_value", lean="invalid_value", arity=5, **common),
+                            dict(py="parse_value", arity=4, **common)], base_siblings=field_sibs,
                      ignored_calls={"context.collect_waring"}, gate_ok=gate_ok)
     body += _group_body(part)
     part = gen_group(repo, notes, src_file="utype/parser/base.py", cls_name="BaseParser", ns="Parse", title="",
@@ -1680,6 +1772,7 @@ def gen_parse(repo: Path, notes: list, gate_ok: bool) -> str:
     body += _group_body(part)
     part = gen_group(repo, notes, src_file="utype/parser/rule.py", cls_name="Rule", ns="Parse", title="",
                      funcs=[dict(py="_validate_contains", lean="validate_contains", kind="pure", arity=1),
+                            dict(py="_read_items", lean="read_items", arity=4, **common),
                             dict(py="_parse_contains", lean="parse_contains", arity=3, **common)],
                      gate_ok=gate_ok)
     body += _group_body(part)
